@@ -19,6 +19,7 @@ mod c05;
 mod c06;
 mod c12;
 mod c20;
+mod scen;
 mod smoke;
 mod typed;
 
